@@ -183,13 +183,17 @@ func getFloatToStringFunction() schema.CallableFunction {
 	return funcSchema
 }
 
+// maxFloatFormatPrecision is the largest precision floatToFormattedString accepts. A 64-bit float has
+// less than 1100 significant decimal digits after the decimal point, so larger values only add zeros.
+const maxFloatFormatPrecision = 2000
+
 func getFloatToFormattedStringFunction() schema.CallableFunction {
 	funcSchema, err := schema.NewCallableFunction(
 		"floatToFormattedString",
 		[]schema.Type{
 			schema.NewFloatSchema(nil, nil, nil),
 			schema.NewStringSchema(nil, nil, regexp.MustCompile(`^[beEfgGxX]$`)),
-			schema.NewIntSchema(nil, nil, nil),
+			schema.NewIntSchema(schema.PointerTo[int64](-1), schema.PointerTo[int64](maxFloatFormatPrecision), nil),
 		},
 		// 'b' format: -ddddp±ddd
 		// 'e' format: -d.dddde±dd
@@ -218,6 +222,13 @@ func getFloatToFormattedStringFunction() schema.CallableFunction {
 			nil,
 		),
 		func(f float64, fmt string, precision int64) string {
+			// The buffer for the result grows with the precision. Keep the precision within the declared range so
+			// that an absurd value cannot exhaust the memory or panic on the allocation.
+			if precision > maxFloatFormatPrecision {
+				precision = maxFloatFormatPrecision
+			} else if precision < -1 {
+				precision = -1
+			}
 			return strconv.FormatFloat(f, fmt[0], int(precision), 64)
 		},
 	)
